@@ -31,7 +31,7 @@ BASE = {
 # st::active
 
 - 240101#A1 first note v0 [[sub/b]] key::one
-o P1 240101#A2 todo in a #only_here
+o P1 240101#A2 todo in a #only_here [[only_link]]
 - 240102#A3 third note to delete @ctx
 
 {H1R} Sec A
@@ -83,13 +83,14 @@ ZONE_EVENTS = ["edit_body_a", "kind_a", "add_note_a", "R", "Rp", "D"]
 
 EVENTS = ["edit_body_a", "kind_a", "add_note_a", "del_note_a", "move_note", "add_page_c",
           "del_page_b", "rename_b_d", "restore_b", "title_tags_a", "header_b", "drop_last_tag", "del_note_t", "break_z", "fix_z",
-          "R", "Rp", "D"]
+          "R", "Rp", "Rq", "D"]
 
 QUERIES = [
     "S note W +rocket O alpha G none", "S + O alpha",
     "S note O alpha G none", "S note W #shared O alpha G none", "S note W o O alpha G none",
     "S note W #only_here O alpha G none", "S note W key:* O alpha G none", "S note W [[a]] O alpha G none",
     "S note W [[sub/b]] O alpha G none", "S # O alpha", "S prop O alpha", "S file O alpha",
+    "S links O alpha", "S count(links) O alpha", "S @ O alpha", "S count(#) O alpha",
     "S count(note)", "S note W f=s* O alpha G none", "S note W 'edited' O alpha G none", "S note W st=active O alpha G none", "S prop:st O alpha",
 ]
 
@@ -236,9 +237,10 @@ def apply_edit(zd: Path, ev: str, guards: dict) -> bool:
         return False
     if ev == "drop_last_tag":
         t = a.read_text()
-        if " #only_here" not in t:
+        if " #only_here [[only_link]]" not in t:
             return False
-        a.write_text(t.replace(" #only_here", ""))
+        # the only holder of a tag AND of a link loses both
+        a.write_text(t.replace(" #only_here [[only_link]]", ""))
         return True
     raise H.HarnessError(ev)
 
@@ -330,11 +332,18 @@ def _step(st: B.St, ev: str) -> B.StepResult:
     try:
         if ev == "D":
             day = day + dt.timedelta(days=1)
-        elif ev in ("R", "Rp"):
-            if ev == "Rp" and not (zd / "a.zo").exists():
+        elif ev in ("R", "Rp", "Rq"):
+            if ev in ("Rp", "Rq") and not (zd / "a.zo").exists():
                 Z.drop(zd)
                 return res
-            r = Z.db_reindex(zd, day, [str(zd / "a.zo")] if ev == "Rp" else [])
+            if ev == "Rq":
+                # the explicit path as shell completion may leave it: through a sub-directory and back
+                if guards.get("rq", 0) >= 1 or not (zd / "sub").is_dir():
+                    Z.drop(zd)
+                    return res
+                guards["rq"] = 1
+            paths = {"R": [], "Rp": [str(zd / "a.zo")], "Rq": [str(zd) + "/sub/../a.zo"]}[ev]
+            r = Z.db_reindex(zd, day, paths)
             if not Z.cli_ok(r):
                 if guards.get("z_broken") and ev == "R":
                     # a page is broken right now: the refusal is the specified behaviour;
@@ -360,7 +369,7 @@ def _step(st: B.St, ev: str) -> B.StepResult:
                            "files": Z.snapshot(zd, with_meta=False)})
             problem = (problem[0], detail)
         return B.StepResult(new, problem, judged, 1, nontrivial=judged and any(
-            h not in ("R", "Rp", "D") for h in hist))
+            h not in ("R", "Rp", "Rq", "D") for h in hist))
     except Exception:
         Z.drop(zd)
         raise
@@ -474,12 +483,12 @@ def run(ctx: F.Ctx):
             "pending; same after an earlier stamped edit; same after a page was deleted and the "
             "index followed; same after a new page was added, the last page broken and a plain "
             "reindex refused; same after one run that wrote a ZID back, dropped a vanished page and took in a new page), "
-            "plus the indexed directory one day later on a machine at UTC+2 at 00:30 and at UTC-8 at 19:30 (local calendar day != UTC calendar day; events: body edit, kind change, new note, R, Rp, D; depth one less), plus scripted sessions of ONE long-lived `zorg edit` process (7 scenarios x midnight passing in no / each session: the editor is closed with the keep-alive file in place, zorg reindexes in the same process and reopens it), plus a small directory with a 140-note page of 12 KiB whose LAST note is edited (events: that edit, a body edit, a new note, R, Rp, D), over 18 events: edit a body, change a "
+            "plus the indexed directory one day later on a machine at UTC+2 at 00:30 and at UTC-8 at 19:30 (local calendar day != UTC calendar day; events: body edit, kind change, new note, R, Rp, D; depth one less), plus scripted sessions of ONE long-lived `zorg edit` process (7 scenarios x midnight passing in no / each session: the editor is closed with the keep-alive file in place, zorg reindexes in the same process and reopens it), plus a small directory with a 140-note page of 12 KiB whose LAST note is edited (events: that edit, a body edit, a new note, R, Rp, D), over 19 events: edit a body, change a "
             "todo's kind, add a ZID-less note, delete a note, move a note between pages whose header "
             "blocks give one property different values, add a page, "
             "delete a page, rename a page, bring the vanished page back byte-identical, edit title-line tags, edit a section header, drop the "
             "last holder of a tag, delete a note of a property-less page, break / repair the last page "
-            "(a plain reindex is refused while it is broken), plain reindex, reindex of one explicit path, advance the day. "
+            "(a plain reindex is refused while it is broken), plain reindex, reindex of one explicit path (also spelled <dir>/sub/../a.zo), advance the day. "
             "Each edit is enabled a bounded number of times. Every transition copies the real "
             "directory and runs the real command in a fresh process. Oracle in every state reached "
             "by a plain reindex: raw index == raw index of a fresh db create on a copy of the files, "
